@@ -518,6 +518,26 @@ def _loaded_shape(e, owner, depth=0, scope=None):
                 and st.targets[0].id == e.id]
         if len(defs) == 1:
             return _loaded_shape(defs[0].value, owner, depth + 1, scope)
+        if len(defs) == 2:
+            # `x = <loaded>; if not isinstance(x, tuple): x = (x,)`: a sequence of whatever was stored, or the wrapped single value
+            pm_ = {id(c_): p_ for p_ in ast.walk(scope) for c_ in ast.iter_child_nodes(p_)}
+            first, second = sorted(defs, key=lambda d_: d_.lineno)
+            par = pm_.get(id(second))
+            if isinstance(par, ast.If) and second in par.body and not par.orelse and isinstance(pm_.get(id(first)), (ast.FunctionDef, ast.Module)):
+                t = par.test
+                neg = isinstance(t, ast.UnaryOp) and isinstance(t.op, ast.Not)
+                t = t.operand if neg else t
+                if neg and isinstance(t, ast.Call) and call_name(t) == 'isinstance' and len(t.args) == 2 and unparse(t.args[0]) == e.id \
+                        and any(n_ in unparse(t.args[1]) for n_ in ('tuple', 'list')):
+                    base = _loaded_shape(first.value, owner, depth + 1, scope)
+                    v2 = second.value
+                    if isinstance(v2, (ast.Tuple, ast.List)) and all(isinstance(x_, ast.Name) and x_.id == e.id for x_ in v2.elts):
+                        b = [base for _ in v2.elts]
+                        a = ['*', 'U']
+                        return a if a == b else ['|', a, b]
+            return '?'
+        if len(defs) > 2:
+            return '?'
         return 'V'
     if isinstance(e, ast.IfExp):
         t = e.test
@@ -620,6 +640,8 @@ def rule_h(ctx, ix, reg):
                 n += 1
                 st, ld = byv[v]
                 sh = _loaded_shape(st.value, ld)
+                if '?' in json.dumps(sh):
+                    raise AnalysisError('C12.h: %s builds .%s from a local with several definitions in a form the layout reader does not know' % (ld.name, fld))
                 ctx.ob(R, '%s v%d .%s' % (t.rpartition('.')[2], v, fld), 'the version-%d loader builds %s in the layout of version %d' % (v, fld, newest),
                        _instance_of(sh, ref),
                        detail='%s (version %d of %s) sets .%s to %s, the version-%d loader to %s: what a version-%d record restores to '
@@ -650,6 +672,8 @@ def rule_h(ctx, ix, reg):
                         if call_name(c) == 'object':
                             continue
                         sh = _loaded_shape(c, ld)
+                        if '?' in json.dumps(sh):
+                            raise AnalysisError('C12.h: %s restores %s through a local with several definitions in a form the layout reader does not know' % (ld.name, fld))
                         n += 1
                         ctx.ob(R, '%s v%d .%s[%d]' % (t.rpartition('.')[2], v, fld, i),
                                'what the version-%d saver stored as a whole sequence is not wrapped again by the version-%d loader' % (v, v),
